@@ -4855,6 +4855,10 @@ def pprint(val,imports=None, prefix="\n    ", settings=[],
     if isinstance(val,type):
         rep = type_script_repr(val,imports,prefix,settings)
 
+    elif script_repr_reg.get(type(val)) is container_script_repr:
+        # the items are printed like the container's owner (qualified or not)
+        rep = container_script_repr(val,imports,prefix,settings,qualify=qualify)
+
     elif type(val) in script_repr_reg:
         rep = script_repr_reg[type(val)](val,imports,prefix,settings)
 
@@ -4876,10 +4880,10 @@ script_repr_reg = {}
 
 
 # currently only handles list and tuple
-def container_script_repr(container,imports,prefix,settings):
+def container_script_repr(container,imports,prefix,settings,qualify=False):
     result=[]
     for i in container:
-        result.append(pprint(i,imports,prefix,settings))
+        result.append(pprint(i,imports,prefix,settings,qualify=qualify))
 
     ## (hack to get container brackets)
     if isinstance(container,list):
